@@ -3,7 +3,7 @@
 From DV Require Import Base.Prelude Model.BTreeM Proofs.BTreeBase Proofs.BTreeWf Proofs.BTreeInsert
   Proofs.BTreeLookup Proofs.BTreeDelete Proofs.BTreeTop
   Model.BTreeStoreM Proofs.BTreeStore Proofs.BTreeIsolation Proofs.BTreeCursor Proofs.BTreeHistory
-  Proofs.BTreeRefine Proofs.BTreeRefine5.
+  Proofs.BTreeRefine Proofs.BTreeRefine5 Proofs.BTreeRefine6.
 
 (* _Node.search_in_node (shortcut + binary search) on a key-sorted node = linear search *)
 Theorem search_spec : forall k es, ksorted es -> search k es = Ok (lsearch k es).
@@ -220,6 +220,20 @@ Theorem ghost_check_never_fires : forall xs x,
   snd (exec (execs (mkSW [] []) xs) x) <> Prelude.E eForeign.
 Proof. exact BTreeRefine5.ghost_check_never_fires. Qed.
 Print Assumptions ghost_check_never_fires.
+
+(* The model the harness runs (`BTreeStoreM.run`: the value-level world and the store world side
+   by side, compared at every store operation and dumped on request) agrees, on every history of
+   the 36 operations of `vop`, with the value-level model - it never reports eStoreDiffers - and
+   therefore with the sorted-list reference world of `history_refines`. *)
+Theorem store_run_agrees : forall xs,
+  BTreeStoreM.run (L (I 0 :: map enc xs)) = BTreeM.run (L (I 0 :: map enc xs)).
+Proof. exact store_run_proof. Qed.
+Print Assumptions store_run_agrees.
+
+Theorem store_run_reference : forall xs,
+  BTreeStoreM.run (L (I 0 :: map enc xs)) = L (rsteps (mkRW [] []) xs).
+Proof. exact store_run_reference_proof. Qed.
+Print Assumptions store_run_reference.
 
 Theorem cow_invariant_reachable : forall xs, WI (execs (mkSW [] []) xs).
 Proof. exact WI_reachable. Qed.
